@@ -289,37 +289,52 @@ func (i *interpreter) strBytes(s value) []value {
 	return out
 }
 
-// strSlice implements s[lo:hi] on a symbolic string; offsets must fall on
-// rune boundaries (otherwise the path is reported unsupported).
+// strSlice implements s[lo:hi] on a symbolic string (byte offsets).  When an
+// offset falls inside a multi-byte character the result holds one U+FFFD per
+// orphaned byte (what decoding the broken text yields) and the path is
+// flagged imprecise.
 func (i *interpreter) strSlice(s *symStr, lo, hi int64, hasHi bool) value {
+	var out []value
 	off := int64(0)
-	start, end := -1, -1
-	if lo == 0 {
-		start = 0
-	}
+	total := int64(0)
+	lens := make([]int64, len(s.r))
 	for k, r := range s.r {
-		off += int64(i.concreteRuneLen(r))
-		if off == lo {
-			start = k + 1
+		if _, isO := r.(opaqueSeg); isO {
+			panic(pathAbort{abortUnsupported, "byte slicing of opaque formatted text"})
 		}
-		if hasHi && off == hi {
-			end = k + 1
-		}
+		lens[k] = int64(i.concreteRuneLen(r))
+		total += lens[k]
 	}
 	if !hasHi {
-		end = len(s.r)
-		hi = off
+		hi = total
 	}
-	if hasHi && hi == 0 {
-		end = 0
+	if lo < 0 || hi > total || lo > hi {
+		panic(goPanic(fmt.Sprintf("runtime error: slice bounds out of range [%d:%d] with length %d", lo, hi, total)))
 	}
-	if lo < 0 || hi > off || lo > hi {
-		panic(goPanic(fmt.Sprintf("runtime error: slice bounds out of range [%d:%d] with length %d", lo, hi, off)))
+	for k, r := range s.r {
+		start, end := off, off+lens[k]
+		off = end
+		if end <= lo || start >= hi {
+			continue
+		}
+		if start >= lo && end <= hi {
+			out = append(out, r)
+			continue
+		}
+		// partially covered character
+		a, b := start, end
+		if a < lo {
+			a = lo
+		}
+		if b > hi {
+			b = hi
+		}
+		i.path.Imprecise("string slice splits a multi-byte character")
+		for j := a; j < b; j++ {
+			out = append(out, int32(0xFFFD))
+		}
 	}
-	if start < 0 || end < 0 {
-		panic(pathAbort{abortUnsupported, "string slice splits a symbolic rune"})
-	}
-	return mkStr(s.r[start:end])
+	return mkStr(out)
 }
 
 // symStrIter ranges over a symbolic string.
